@@ -93,5 +93,20 @@ def main():
     return ctx.finish()
 
 
+def _main_with_private_tmp():
+    """every temporary directory of the run (also those of pool workers, whose atexit handlers do not run) lives under one root that is
+    removed when the check ends"""
+    import shutil
+    import tempfile
+
+    root = tempfile.mkdtemp(prefix="verif_run_")
+    os.environ["TMPDIR"] = root
+    tempfile.tempdir = root
+    try:
+        return main()
+    finally:
+        shutil.rmtree(root, ignore_errors=True)
+
+
 if __name__ == "__main__":
-    sys.exit(main())
+    sys.exit(_main_with_private_tmp())
